@@ -1,10 +1,10 @@
 SPECIFICATION TraceSpec
 CONSTANTS
-  Producers = {"p1", "p2", "p3", "p4"}
-  NRep = 1
-  Flushers = {"f1"}
-  Closers = {"z1", "z2"}
-  QCap = 1
+  Producers <- TProducers
+  NRep <- TNRep
+  Flushers <- TFlushers
+  Closers <- TClosers
+  QCap <- TQCap
   Free = 1000000
   SizeOf <- MCSizeOf
   NInternal = 5
